@@ -833,6 +833,28 @@ fn narrow_operands(
     symbol_table: &mut BTreeMap<Rc<str>, Shape>,
 ) -> Shape {
     let narrowed = left_shape.narrow(right_shape, symbol_table);
+    // Narrowing two compatible list shapes yields the one contained in the
+    // other. A concatenation holds the elements of both lists, so it has the
+    // shape that contains the other.
+    if let (
+        BinaryExprType::Add,
+        Shape::List(NarrowedShape {
+            types: NarrowingShape::Narrowed(left_types),
+            ..
+        }),
+        Shape::List(NarrowedShape {
+            types: NarrowingShape::Narrowed(right_types),
+            ..
+        }),
+        Shape::List(_),
+    ) = (&def.kind, left_shape, right_shape, &narrowed)
+    {
+        return if left_types.len() >= right_types.len() {
+            left_shape.clone()
+        } else {
+            right_shape.clone()
+        };
+    }
     match (left_shape, right_shape, narrowed) {
         (Shape::TypeErr(_, _), _, narrowed) | (_, Shape::TypeErr(_, _), narrowed) => narrowed,
         (_, _, Shape::TypeErr(_, msg)) => Shape::TypeErr(def.right.pos().clone(), msg),
